@@ -10,7 +10,16 @@ def V(name: str) -> Variable:
     return Variable(name)
 
 
-def build_graph(g: dict) -> NxMixedGraph:
+def build_graph(g: dict, how: str = "auto") -> NxMixedGraph:
+    """Build the y0 graph of a case.  ``how``: "from_edges" (one go), "incremental" (grown with add_* calls and
+    read-only queries in between, see build_graph_incremental) or "auto": a deterministic third of all graphs (chosen by
+    a hash of the graph's content) is built incrementally, so every property also sees graph objects with a history."""
+    if how == "auto":
+        import zlib
+
+        how = "incremental" if zlib.crc32(graph_key(g).encode()) % 3 == 0 and all(u != v for u, v in g["di"]) else "from_edges"
+    if how == "incremental":
+        return build_graph_incremental(g)
     return NxMixedGraph.from_edges(
         nodes=[V(n) for n in g["nodes"]],
         directed=[(V(u), V(v)) for u, v in g["di"]],
@@ -162,23 +171,35 @@ def build_graph_incremental(g: dict, probe: bool = True, strict_probes: bool = F
 
     graph = NxMixedGraph()
 
+    counter = [0]
+
     def look():
+        """Read-only queries on a changing SUBSET of the nodes (decided by the step number), so that anything the graph
+        object memoises is neither always fresh nor always refreshed before it is used."""
         if not probe:
             return
+        counter[0] += 1
+        k = counter[0]
         try:
-            graph.districts()
+            if k % 2:
+                graph.districts()
             if len(graph.nodes()) > 0:
-                graph.is_connected()
-                first = next(iter(graph.nodes()))
-                graph.ancestors_inclusive(first)
-                graph.descendants_inclusive(first)
-                graph.get_district(first)
+                if k % 3 == 0:
+                    graph.is_connected()
+                for j, node in enumerate(list(graph.nodes())):
+                    if (j + k) % 3 == 0:
+                        graph.ancestors_inclusive(node)
+                        graph.get_district(node)
+                    if (j + k) % 4 == 0:
+                        graph.descendants_inclusive(node)
+                        graph.get_markov_pillow([node])
         except Exception:
             # a failing probe is judged only by the property that owns these queries (C14: strict_probes)
             if strict_probes:
                 raise
         try:
-            list(graph.topological_sort())
+            if k % 2 == 0:
+                list(graph.topological_sort())
         except Exception:
             pass
 
@@ -186,14 +207,16 @@ def build_graph_incremental(g: dict, probe: bool = True, strict_probes: bool = F
     steps = [("b", e) for e in g["bi"]] + [("d", e) for e in g["di"]]
     # interleave: bidirected and directed edges alternately, then the remaining nodes
     steps = steps[::2] + steps[1::2]
-    for kind, (u, v) in steps:
+    missing_later = [n for n in g["nodes"] if n not in {x for _k, e in steps for x in e}]
+    for idx, (kind, (u, v)) in enumerate(steps):
         if kind == "d":
             graph.add_directed_edge(V(u), V(v))
         else:
             graph.add_undirected_edge(V(u), V(v))
-        look()
-    for n in g["nodes"]:
-        if V(n) not in graph.nodes():
-            graph.add_node(V(n))
+        if idx < len(steps) - 1 or missing_later:  # never right after the last mutation
+            look()
+    for idx, n in enumerate(missing_later):
+        graph.add_node(V(n))
+        if idx < len(missing_later) - 1:
             look()
     return graph
